@@ -723,6 +723,8 @@ def table_configs(tier):
     for n_t, labels in grids:
         for dist in DISTS:
             overs = ["number", "all"] + (["labels", "labels-reversed", "all-permuted"] if labels else []) + ["time"]
+            if labels:
+                overs += ["ndarray-full", "ndarray-cohort-column", "ndarray-last-label"]
             for over in overs:
                 quads = [(1, "start"), (1, "middle"), (1, "end"), (2, "middle"), (3, "middle")]
                 if over in ("number", "all") and not labels:
@@ -737,6 +739,15 @@ def table_configs(tier):
                         vias += ("attributes",)
                     for via in vias:
                         out.append(dict(n_t=n_t, labels=labels, dist=dist, over=over, n_pts=n_pts, inflow_at=ia, via=via))
+    for dist in (DISTS if tier == "thorough" else ("NormalLifetime", "FixedLifetime")):
+        # plain NumPy parameters with a length-one axis (keepdims style) next to two label dimensions
+        for over in ("ndarray-first-label-keepdims", "ndarray-cohort-column", "ndarray-last-label"):
+            out.append(dict(n_t=3, labels=("a", "b"), dist=dist, over=over, n_pts=1, inflow_at="middle", via="set_prms"))
+    # a fixed lifetime that coincides EXACTLY with an age of the table (concrete yearly grid): sf(age) is 1 for age < mean, 0 from age == mean on
+    from fractions import Fraction
+    for mean, n_pts, ia in ((1, 1, "start"), (1, 1, "end"), (2, 1, "end"), (0, 1, "end"), (Fraction(3, 2), 1, "middle"), (Fraction(1, 2), 1, "middle"),
+                            (1, 2, "middle"), (2, 3, "middle")):
+        out.append(dict(n_t=4, labels=(), dist="FixedLifetime", over="number", n_pts=n_pts, inflow_at=ia, via="set_prms", grid="unit", prm_values={"A": mean}))
     if tier == "quick":
         for dist in DISTS:      # four time items: the smallest grid whose interval lengths differ
             out.append(dict(n_t=4, labels=(), dist=dist, over="number", n_pts=1, inflow_at="middle", via="set_prms"))
@@ -764,7 +775,7 @@ def dsm_configs(tier):
             if labels:
                 overs = overs + ["shared-first-cohort"]
             if len(labels) == 2:
-                overs = overs + ["first-label", "last-label"]
+                overs = overs + ["first-label", "last-label", "ndarray-first-label-keepdims"]
             for over in overs:
                 if tier == "quick" and dist not in ("NormalLifetime", "FixedLifetime") and over != "all":
                     continue
